@@ -200,3 +200,44 @@ def laid_out(arr, layout):
         raise ValueError(layout)
     assert out.shape == arr.shape and np.array_equal(out, arr)
     return out
+
+
+REGULAR_KINDS = ("one_axis", "flat_periodic", "tiled")
+
+
+def regular_labels(shape, dt, rng, kind=None, block=None):
+    """Label arrays (C,Z,Y,X) with REGULAR structure, as real segmentations
+    and synthetic test volumes have: labels that depend on one coordinate
+    only, labels periodic in the flat (C-order) voxel index, or one small tile
+    repeated.  Many blocks of such an array - including incomplete border
+    blocks of DIFFERENT shapes - hold byte-identical voxel sequences, which
+    random labels never produce."""
+    dt = np.dtype(dt)
+    hi = int(np.iinfo(dt).max) if dt.kind in "iu" else 2 ** 20
+    kind = kind or REGULAR_KINDS[int(rng.integers(len(REGULAR_KINDS)))]
+    k = int(rng.integers(2, 6))
+    pal = np.unique(rng.integers(0, hi, size=k, dtype=np.uint64,
+                                 endpoint=True))
+    if len(pal) < 2:
+        pal = np.array([0, hi], dtype=np.uint64)
+    C, Z, Y, X = shape
+    if kind == "one_axis":
+        ax = int(rng.integers(1, 4))
+        n = shape[ax]
+        line = pal[rng.integers(0, len(pal), size=n)]
+        if n >= 2 and len(set(line.tolist())) < 2:
+            line[0], line[1] = pal[0], pal[1]
+        sh = [1, 1, 1, 1]
+        sh[ax] = n
+        out = np.broadcast_to(line.reshape(sh), shape)
+    elif kind == "flat_periodic":
+        period = int(rng.integers(2, 6))
+        seq = pal[np.arange(period) % len(pal)]
+        idx = np.arange(Z * Y * X) % period
+        out = np.broadcast_to(seq[idx].reshape(1, Z, Y, X), shape)
+    else:
+        t = block or [int(rng.integers(1, 4)) for _ in range(3)]
+        tile = pal[rng.integers(0, len(pal), size=(t[2], t[1], t[0]))]
+        reps = (-(-Z // t[2]), -(-Y // t[1]), -(-X // t[0]))
+        out = np.broadcast_to(np.tile(tile, reps)[:Z, :Y, :X], shape)
+    return np.ascontiguousarray(out).astype(dt)
